@@ -247,8 +247,14 @@ class PageBreakCalculator(BaseModel):
         font_size: float = 9,
         additional_rows_per_page: int = 0,
         new_page: bool = False,
+        pageby_rows_rendered: bool = True,
     ) -> pl.DataFrame:
-        """Generate complete row metadata for pagination."""
+        """Generate complete row metadata for pagination.
+
+        `pageby_rows_rendered` tells whether page_by values are rendered as
+        spanning rows (False when the page_by columns stay in the table, i.e.
+        new_page=True with pageby_row="column"): only rendered rows are budgeted.
+        """
 
         # 1. Calculate data rows
         # Use existing calculation logic but handle removed columns manually
@@ -345,7 +351,7 @@ class PageBreakCalculator(BaseModel):
             # down. Divider values ("-----") produce no row.
             pageby_rows = 0
             pageby_top_rows = 0
-            if page_by:
+            if page_by and pageby_rows_rendered:
                 first_changed = 0
                 if row_idx > 0:
                     first_changed = len(page_by)
